@@ -31,6 +31,10 @@ def run(ctx):
             kinds = [rng.choice(pool[:2])] * n        # >= 10 repeats of one class
         first_input = rng.random() < 0.3
         last_output = rng.random() < 0.3
+        if i % 11 == 5:
+            # degenerate but legal sequences: nothing but the end points
+            kinds = []
+            first_input, last_output = rng.choice([(True, False), (False, True), (True, True)])
         recs = [gen.node_recipe(rng, k, meta_p=0.05) for k in kinds]
         if i % 3 == 1:
             # a *chained* sequence: every node consumes its predecessor's output shape; Conv
